@@ -27,7 +27,7 @@ Section JetLift.
   Context {F : Type} `{FieldOps F}.
   Local Open Scope F_scope.
   Local Notation poly := (@poly F).
-  Local Notation tvec := (@tvec F).
+  Local Notation tvec := (list F).
   Local Notation series := (@series F).
 
   Record jetfun : Type := mkJF {
